@@ -46,19 +46,20 @@ func init() {
 }
 
 type c02 struct {
-	r     *Run
-	pk    *packages.Package
-	info  *types.Info
-	iface *types.Named
-	opT   *types.Named
-	kindT *types.Named
-	rtypT types.Type // reflect.Type
-	impls []*c02Impl
-	sizes types.Sizes
-	opVal map[string]int64
-	opNam map[int64]string
-	kinds map[string]int64
-	kname map[int64]string
+	r         *Run
+	pk        *packages.Package
+	info      *types.Info
+	iface     *types.Named
+	opT       *types.Named
+	kindT     *types.Named
+	rtypT     types.Type // reflect.Type
+	impls     []*c02Impl
+	sizes     types.Sizes
+	opVal     map[string]int64
+	opNam     map[int64]string
+	helperAcc map[*types.Func]map[int64]bool // operators accepted by helpers handed the operator
+	kinds     map[string]int64
+	kname     map[int64]string
 }
 
 type c02Impl struct {
@@ -840,6 +841,40 @@ func (x *c02) accepted(fi *FuncInfo) (map[int64]bool, []string) {
 					acc[v] = true
 				}
 				continue
+			}
+			// `return helper(op, …)`: a function of the package that is handed the operator decides
+			if len(r.Results) == 1 {
+				if hc, ok := ast.Unparen(r.Results[0]).(*ast.CallExpr); ok {
+					if hf := callee(x.info, hc); hf != nil && hf.Pkg() == fi.Obj.Pkg() && hf != fi.Obj {
+						passes := false
+						for _, a := range hc.Args {
+							if t := x.info.TypeOf(a); t != nil && types.Identical(t, x.opT) {
+								passes = true
+							}
+						}
+						if passes {
+							for _, h := range x.r.P.Funcs("internal/compiler") {
+								if h.Obj == hf && !x.r.P.isTestFile(h.File) {
+									if x.helperAcc == nil {
+										x.helperAcc = map[*types.Func]map[int64]bool{}
+									}
+									hacc, done := x.helperAcc[hf]
+									if !done {
+										x.helperAcc[hf] = map[int64]bool{} // cut recursion
+										var hunk []string
+										hacc, hunk = x.accepted(h)
+										x.helperAcc[hf] = hacc
+										unk = append(unk, hunk...)
+									}
+									if hacc[v] {
+										acc[v] = true
+									}
+									break
+								}
+							}
+						}
+					}
+				}
 			}
 			if len(r.Results) != 2 {
 				continue
